@@ -979,6 +979,13 @@ func (h *hist) step(line string) (out string) {
 		}
 		return "ok"
 	}
+	if op == "ireduce" {
+		id, f := h.is[regNum(a0)], h.bs[regNum(a1)]
+		if err := id.Reduce(f); err != nil {
+			return "err " + kindOf(err)
+		}
+		return "ok " + h.showB(f)
+	}
 	if op == "tcheck" {
 		// every element of field object k (with whatever tables it has) against field object 1 (a twin defined from
 		// the same descriptor, never given tables): x*g, x^-1, x*1
